@@ -11,7 +11,7 @@
    - the AST stores what the Python objects store after their constructors ran
      (offset already reduced mod period, epsilon/gap already made non-negative): use the
      smart constructors period_local, ..., r_converge, r_diverge below. *)
-From Coq Require Import ZArith List Bool.
+From Coq Require Import Ascii String ZArith List Bool.
 Import ListNotations.
 Open Scope Z_scope.
 
@@ -23,10 +23,57 @@ Record view := mkView {
   v_global : Z;           (* solver.global_epoch = len(metrics_history['train_loss']) *)
   v_max : Z;              (* solver._max_local_epoch *)
   v_train : list Z;       (* metrics_history['train_loss'], most recent first *)
-  v_valid : list Z        (* metrics_history['valid_loss'], most recent first *)
+  v_valid : list Z;       (* metrics_history['valid_loss'], most recent first *)
+  v_custom : list (string * (list Z * list Z))
+                          (* custom metrics of solver.metrics_fn: name -> (train series, valid series) *)
 }.
 
-Definition tview (l g m : Z) : view := mkView l g m [] [].
+Definition tview (l g m : Z) : view := mkView l g m [] [] [].
+
+(* ------------------------------------------------------------------------------------- *)
+(* solver.metrics_history as the solver builds it (solvers.py _update_history): the loss under
+   '<phase>_loss', a custom metric `name` under '<phase>__<name>' (double underscore) *)
+
+Definition phase_name (use_train : bool) : string := if use_train then "train"%string else "valid"%string.
+Definition solver_key (use_train : bool) (name : string) : string :=
+  String.append (phase_name use_train) (String.append "__" name).
+
+Definition store := list (string * list Z).
+
+Fixpoint custom_store (c : list (string * (list Z * list Z))) : store :=
+  match c with
+  | [] => []
+  | (name, (t, va)) :: r => (solver_key true name, t) :: (solver_key false name, va) :: custom_store r
+  end.
+
+Definition store_of (v : view) : store :=
+  ("train_loss"%string, v_train v) :: ("valid_loss"%string, v_valid v) :: custom_store (v_custom v).
+
+Fixpoint dict_get (d : store) (key : string) : option (list Z) :=
+  match d with
+  | [] => None
+  | (k, h) :: r => if String.eqb k key then Some h else dict_get r key
+  end.
+Definition dict_has (d : store) (key : string) : bool := match dict_get d key with Some _ => true | None => false end.
+
+(* str.partition('_'): (text before the first underscore, text after it); no underscore: (s, "") *)
+Fixpoint partition_us (s : string) : string * string :=
+  match s with
+  | EmptyString => (EmptyString, EmptyString)
+  | String c r => if Ascii.eqb c "_"%char then (EmptyString, r)
+                  else let (a, b) := partition_us r in (String c a, b)
+  end.
+
+(* the key the callbacks build in __init__: f'{phase}_{metric}' *)
+Definition callback_key (use_train : bool) (metric : string) : string :=
+  String.append (phase_name use_train) (String.append "_" metric).
+
+(* callbacks._metric_history(solver, key): the key itself if the solver has it, else
+   '<phase>__<metric>' with (phase, _, metric) = key.partition('_'); None = KeyError *)
+Definition lookup_key (d : store) (key : string) : string :=
+  if dict_has d key then key
+  else let (phase, metric) := partition_us key in String.append phase (String.append "__" metric).
+Definition metric_history (d : store) (key : string) : option (list Z) := dict_get d (lookup_key d key).
 
 (* ------------------------------------------------------------------------------------- *)
 (* _RepeatedMetricChange family                                                           *)
@@ -128,7 +175,7 @@ Inductive pred :=
 | POr (l : list pred)
 | PNot (q : pred)
 | PXor (l : list pred)
-| PRepeated (k : rkind) (use_train : bool) (times_required : Z) (so_far : Z).
+| PRepeated (k : rkind) (use_train : bool) (metric : string) (times_required : Z) (so_far : Z).
 
 (* constructors as Python runs them; period = 0 raises ZeroDivisionError there *)
 Definition period_local (period offset : Z) : pred := PPeriodLocal period (offset mod period).
@@ -137,13 +184,19 @@ Definition mk_period_local (period offset : Z) : option pred :=
   if period =? 0 then None else Some (period_local period offset).
 Definition mk_period_global (period offset : Z) : option pred :=
   if period =? 0 then None else Some (period_global period offset).
-Definition repeated (k : rkind) (use_train : bool) (repetition : Z) : pred := PRepeated k use_train repetition 0.
+Definition repeated_m (k : rkind) (use_train : bool) (metric : string) (repetition : Z) : pred := PRepeated k use_train metric repetition 0.
+Definition repeated (k : rkind) (use_train : bool) (repetition : Z) : pred := repeated_m k use_train "loss" repetition.
 
 Definition in_closed (lo hi : option Z) (e : Z) : bool :=
   match lo with None => true | Some a => a <=? e end &&
   match hi with None => true | Some b => e <=? b end.
 
-Definition hist_of (use_train : bool) (v : view) : list Z := if use_train then v_train v else v_valid v.
+(* the series a repeated-metric callback reads; None = the lookup raises KeyError in Python *)
+Definition hist_of (use_train : bool) (metric : string) (v : view) : option (list Z) :=
+  metric_history (store_of v) (callback_key use_train metric).
+(* totalised for step / psem: theorems about leaves carry the hypothesis hist_of ... = Some h *)
+Definition hist_or_nil (use_train : bool) (metric : string) (v : view) : list Z :=
+  match hist_of use_train metric v with Some h => h | None => [] end.
 
 (* condition(solver): returns the Boolean and the callback with its updated (cached) so_far.
    AndCallback / OrCallback return early (the remaining sub-callbacks are NOT evaluated, so
@@ -191,9 +244,9 @@ Fixpoint step (v : view) (p : pred) {struct p} : bool * pred :=
                        ((if c then 1 else 0) + n, q' :: r')
            end) l in
       (cnt mod 2 =? 1, PXor l')
-  | PRepeated k tr n s =>
-      let s' := leaf_count k n (hist_of tr v) in
-      (n <=? s', PRepeated k tr n s')
+  | PRepeated k tr mt n s =>
+      let s' := leaf_count k n (hist_or_nil tr mt v) in
+      (n <=? s', PRepeated k tr mt n s')
   end.
 
 Definition cond (v : view) (p : pred) : bool := fst (step v p).
@@ -226,7 +279,7 @@ Fixpoint stateless (p : pred) : bool :=
   match p with
   | PAnd l | POr l | PXor l => (fix all (l : list pred) : bool := match l with [] => true | q :: r => stateless q && all r end) l
   | PNot q => stateless q
-  | PRepeated _ _ _ _ => false
+  | PRepeated _ _ _ _ _ => false
   | _ => true
   end.
 
@@ -248,7 +301,7 @@ Fixpoint psem (v : view) (p : pred) {struct p} : bool :=
   | POr l => (fix any (l : list pred) : bool := match l with [] => false | q :: r => psem v q || any r end) l
   | PNot q => negb (psem v q)
   | PXor l => (fix par (l : list pred) : bool := match l with [] => false | q :: r => xorb (psem v q) (par r) end) l
-  | PRepeated k tr n _ => n <=? Z.of_nat (doc_count k (hist_of tr v))
+  | PRepeated k tr mt n _ => n <=? Z.of_nat (doc_count k (hist_or_nil tr mt v))
   end.
 
 (* odd parity of a list of Booleans *)
@@ -332,30 +385,42 @@ Record sst := mkS {
   s_loss : Z;              (* identity of solver.loss_fn *)
   s_opt : Z;               (* identity of solver.optimizer: >= 0 given instance, < 0: -(serial) of a class-built one *)
   s_nopt : Z;              (* number of optimisers built from a class so far *)
-  s_train : list Z; s_valid : list Z }.
+  s_train : list Z; s_valid : list Z;
+  s_custom : list (string * (list Z * list Z)) }.
 
-Definition init_sst (loss opt : Z) : sst := mkS 0 0 0 false loss opt 0 [] [].
+Definition init_sst (loss opt : Z) : sst := mkS 0 0 0 false loss opt 0 [] [] [].
 
-Definition view_of (s : sst) : view := mkView (s_local s) (s_global s) (s_max s) (s_train s) (s_valid s).
+Definition view_of (s : sst) : view := mkView (s_local s) (s_global s) (s_max s) (s_train s) (s_valid s) (s_custom s).
 
 Definition set_stop (b : bool) (s : sst) : sst :=
-  mkS (s_global s) (s_local s) (s_max s) b (s_loss s) (s_opt s) (s_nopt s) (s_train s) (s_valid s).
+  mkS (s_global s) (s_local s) (s_max s) b (s_loss s) (s_opt s) (s_nopt s) (s_train s) (s_valid s) (s_custom s).
 Definition set_max (m : Z) (s : sst) : sst :=
-  mkS (s_global s) (s_local s) m (s_stop s) (s_loss s) (s_opt s) (s_nopt s) (s_train s) (s_valid s).
+  mkS (s_global s) (s_local s) m (s_stop s) (s_loss s) (s_opt s) (s_nopt s) (s_train s) (s_valid s) (s_custom s).
 Definition set_loss (id : Z) (s : sst) : sst :=
-  mkS (s_global s) (s_local s) (s_max s) (s_stop s) id (s_opt s) (s_nopt s) (s_train s) (s_valid s).
+  mkS (s_global s) (s_local s) (s_max s) (s_stop s) id (s_opt s) (s_nopt s) (s_train s) (s_valid s) (s_custom s).
 Definition set_opt (id : Z) (s : sst) : sst :=
-  mkS (s_global s) (s_local s) (s_max s) (s_stop s) (s_loss s) id (s_nopt s) (s_train s) (s_valid s).
+  mkS (s_global s) (s_local s) (s_max s) (s_stop s) (s_loss s) id (s_nopt s) (s_train s) (s_valid s) (s_custom s).
 Definition new_opt (s : sst) : sst :=
-  mkS (s_global s) (s_local s) (s_max s) (s_stop s) (s_loss s) (- (s_nopt s + 1)) (s_nopt s + 1) (s_train s) (s_valid s).
+  mkS (s_global s) (s_local s) (s_max s) (s_stop s) (s_loss s) (- (s_nopt s + 1)) (s_nopt s + 1) (s_train s) (s_valid s) (s_custom s).
 
 (* self.local_epoch = e; run_train_epoch(); run_valid_epoch(): one more entry in the train
    history (n_batches_train >= 1), one more in the valid history iff validation is on.
    feed g = the (train, valid) loss values of the epoch that makes global_epoch = g + 1 *)
-Definition run_epoch (feed : Z -> Z * Z) (valid_on : bool) (e : Z) (s : sst) : sst :=
+Fixpoint custom_get (c : list (string * (list Z * list Z))) (name : string) : list Z * list Z :=
+  match c with
+  | [] => ([], [])
+  | (k, h) :: r => if String.eqb k name then h else custom_get r name
+  end.
+
+(* cfeed: the custom metrics of solver.metrics_fn, each with its scripted (train, valid) values *)
+Definition run_epoch (feed : Z -> Z * Z) (cfeed : list (string * (Z -> Z * Z))) (valid_on : bool) (e : Z) (s : sst) : sst :=
   let (x, y) := feed (s_global s) in
   mkS (s_global s + 1) e (s_max s) (s_stop s) (s_loss s) (s_opt s) (s_nopt s)
-      (x :: s_train s) (if valid_on then y :: s_valid s else s_valid s).
+      (x :: s_train s) (if valid_on then y :: s_valid s else s_valid s)
+      (map (fun nf : string * (Z -> Z * Z) =>
+              let (cx, cy) := snd nf (s_global s) in
+              let (t, va) := custom_get (s_custom s) (fst nf) in
+              (fst nf, (cx :: t, if valid_on then cy :: va else va))) cfeed).
 
 Definition run_action (a : action) (called : bool) (s : sst) : sst * bool :=
   match a with
@@ -392,30 +457,30 @@ Fixpoint run_cbs (s : sst) (cbs : list cbk) (mask : list bool) (idx : nat) : sst
 Record erec := mkE { e_local : Z; e_global : Z; e_max : Z; e_fired : list nat; e_stop : bool; e_loss : Z; e_opt : Z }.
 
 (* the loop of BaseSolver.fit: `for local_epoch in range(max_epochs): if self._stop_training: break; ...` *)
-Fixpoint fit_loop (feed : Z -> Z * Z) (valid_on : bool) (mask : list bool) (fuel : nat) (e : Z)
+Fixpoint fit_loop (feed : Z -> Z * Z) (cfeed : list (string * (Z -> Z * Z))) (valid_on : bool) (mask : list bool) (fuel : nat) (e : Z)
          (s : sst) (cbs : list cbk) : sst * list cbk * list erec :=
   match fuel with
   | O => (s, cbs, [])
   | S k =>
       if s_stop s then (s, cbs, [])
       else
-        let s1 := run_epoch feed valid_on e s in
+        let s1 := run_epoch feed cfeed valid_on e s in
         let '(s2, cbs2, fired) := run_cbs s1 cbs mask 0 in
-        let '(s3, cbs3, recs) := fit_loop feed valid_on mask k (e + 1) s2 cbs2 in
+        let '(s3, cbs3, recs) := fit_loop feed cfeed valid_on mask k (e + 1) s2 cbs2 in
         (s3, cbs3, mkE (s_local s2) (s_global s2) (s_max s2) fired (s_stop s2) (s_loss s2) (s_opt s2) :: recs)
   end.
 
-Definition fit (feed : Z -> Z * Z) (valid_on : bool) (max_epochs : Z) (mask : list bool) (s : sst) (cbs : list cbk)
+Definition fit (feed : Z -> Z * Z) (cfeed : list (string * (Z -> Z * Z))) (valid_on : bool) (max_epochs : Z) (mask : list bool) (s : sst) (cbs : list cbk)
   : sst * list cbk * list erec :=
-  fit_loop feed valid_on mask (Z.to_nat max_epochs) 1 (set_max max_epochs (set_stop false s)) cbs.
+  fit_loop feed cfeed valid_on mask (Z.to_nat max_epochs) 1 (set_max max_epochs (set_stop false s)) cbs.
 
-Fixpoint fit_seq (feed : Z -> Z * Z) (valid_on : bool) (calls : list (Z * list bool)) (s : sst) (cbs : list cbk)
+Fixpoint fit_seq (feed : Z -> Z * Z) (cfeed : list (string * (Z -> Z * Z))) (valid_on : bool) (calls : list (Z * list bool)) (s : sst) (cbs : list cbk)
   : sst * list cbk * list (list erec) :=
   match calls with
   | [] => (s, cbs, [])
   | (m, mask) :: r =>
-      let '(s1, cbs1, recs) := fit feed valid_on m mask s cbs in
-      let '(s2, cbs2, rest) := fit_seq feed valid_on r s1 cbs1 in
+      let '(s1, cbs1, recs) := fit feed cfeed valid_on m mask s cbs in
+      let '(s2, cbs2, rest) := fit_seq feed cfeed valid_on r s1 cbs1 in
       (s2, cbs2, recs :: rest)
   end.
 
@@ -457,6 +522,10 @@ Fixpoint erecss_eqb (a b : list (list erec)) : bool :=
 
 Definition feed_of (l : list (Z * Z)) : Z -> Z * Z := fun g => nth (Z.to_nat g) l (0, 0).
 
+Definition fit_seq_recs_c (feed : list (Z * Z)) (cfeed : list (string * list (Z * Z))) (valid_on : bool)
+           (calls : list (Z * list bool)) (loss opt : Z) (cbs : list cbk) : list (list erec) :=
+  match fit_seq (feed_of feed) (map (fun nf => (fst nf, feed_of (snd nf))) cfeed) valid_on calls (init_sst loss opt) cbs with
+  | (_, _, r) => r
+  end.
 Definition fit_seq_recs (feed : list (Z * Z)) (valid_on : bool) (calls : list (Z * list bool)) (loss opt : Z) (cbs : list cbk)
-  : list (list erec) :=
-  match fit_seq (feed_of feed) valid_on calls (init_sst loss opt) cbs with (_, _, r) => r end.
+  : list (list erec) := fit_seq_recs_c feed [] valid_on calls loss opt cbs.
